@@ -95,7 +95,20 @@ func (p *Prog) discoverNames() {
 		return ok && nt.Obj().Name() == name && nt.Obj().Pkg() == p.Types
 	}
 	// ---- Scanner ----
-	if _, st := structOf(p, "Scanner"); st != nil {
+	if _, st0 := structOf(p, "Scanner"); st0 != nil {
+		// the scanner's fields, those of a struct embedded in it included (`type Scanner struct { ..; scanState }`)
+		var flat []*types.Var
+		for i := 0; i < st0.NumFields(); i++ {
+			f := st0.Field(i)
+			if est, isS := f.Type().Underlying().(*types.Struct); isS && f.Embedded() {
+				for j := 0; j < est.NumFields(); j++ {
+					flat = append(flat, est.Field(j))
+				}
+				continue
+			}
+			flat = append(flat, f)
+		}
+		st := types.NewStruct(flat, nil)
 		curStruct = st
 		set(uniqueField(st, func(v *types.Var) bool { return v.Type().String() == "[]byte" }), "text")
 		set(uniqueField(st, func(v *types.Var) bool { return isNamed(v.Type(), "SyntaxKind") }), "token")
@@ -112,8 +125,17 @@ func (p *Prog) discoverNames() {
 		if scan := p.Method("Scanner", "Scan"); scan != nil && len(scan.Blocks) > 0 {
 			isScannerInt := func(v ssa.Value) *types.Var {
 				fa, ok := v.(*ssa.FieldAddr)
-				if !ok || typeName(fa.X.Type()) != "Scanner" {
+				if !ok {
 					return nil
+				}
+				if typeName(fa.X.Type()) != "Scanner" {
+					outer, isFA := fa.X.(*ssa.FieldAddr)
+					if !isFA || typeName(outer.X.Type()) != "Scanner" {
+						return nil
+					}
+					if ov := fieldVarOf(outer); ov == nil || !ov.Embedded() {
+						return nil
+					}
 				}
 				fv := fieldVarOf(fa)
 				if fv == nil {
